@@ -44,6 +44,10 @@ type C07Case struct {
 	// ResetStallMs: the transport write that carries the caller's reset takes this long (a congested but reliable
 	// transport: 0.2 to 5 s of virtual time, well inside the half minute the library allows for it) before it completes
 	ResetStallMs int `json:"reset_stall_ms,omitempty"`
+	// SlowUnary: this many unary calls on the same connection are inside their (slow) handlers when the cancellation
+	// lands and stay there until the verdict on the handler's context has been taken (fewer than the connection's
+	// unary workers, so the read loop itself is never held up by them on the pinned tree)
+	SlowUnary int `json:"slow_unary,omitempty"`
 }
 
 func genC07(t *rapid.T) C07Case {
@@ -71,6 +75,7 @@ func genC07(t *rapid.T) C07Case {
 	c.Cause = rapid.IntRange(0, 3).Draw(t, "cause") == 0
 	c.Stats = rapid.IntRange(0, 2).Draw(t, "stats") == 0
 	c.ResetStallMs = rapid.SampledFrom([]int{0, 0, 0, 200, 2000, 5000}).Draw(t, "reset_stall_ms")
+	c.SlowUnary = rapid.SampledFrom([]int{0, 0, 0, 1, 3, 5, 7}).Draw(t, "slow_unary")
 	return c
 }
 
@@ -168,6 +173,14 @@ func runC07(t *testing.T, c C07Case, pos int) *c07Run {
 				}
 			}
 		})
+		slowRelease := make(chan struct{})
+		svc.Unary("slow", func(ctx context.Context, req []byte) ([]byte, error) {
+			select {
+			case <-slowRelease:
+			case <-ctx.Done():
+			}
+			return req, nil
+		})
 		var sopts []goat.ServerOption
 		var dopts []goat.DialOption
 		if c.Stats {
@@ -176,6 +189,13 @@ func runC07(t *testing.T, c C07Case, pos int) *c07Run {
 		}
 		w := kit.NewWorld(kit.Topo{Kind: "direct", Serialize: c.Ser, Clients: 1}, svc, sopts, dopts)
 		l := w.Links[0]
+		// slow unary calls of the same connection, inside their handlers for the whole life of the target call (started
+		// first: a call started while the client's read loop is parked on the target's unread messages would queue for
+		// the multiplexer's mutex, which no bubble can settle on)
+		for i := 0; i < c.SlowUnary; i++ {
+			go func() { _, _ = kit.Invoke(context.Background(), w.Conn(0), "slow", []byte{byte(i)}) }()
+		}
+		kit.Settle()
 		l.DelayAll()
 		sched := kit.NewSched(l)
 
@@ -343,6 +363,8 @@ func runC07(t *testing.T, c C07Case, pos int) *c07Run {
 		}
 		kit.Settle()
 		r.handlerCtxDoneAfter = r.hlog.SnapshotInBubble().CtxDone
+		close(slowRelease)
+		kit.Settle()
 		r.tap = w.Tap.Snapshot()
 		w.Shutdown()
 		kit.Settle()
@@ -502,7 +524,7 @@ func execC07(t *testing.T, c C07Case) (v Verdict) {
 	}
 	unread := c.NH - c.Read
 	labels := []string{"kind=" + kit.KindNames[c.Kind], fmt.Sprintf("unread=%d", unread), fmt.Sprintf("deadline=%v", c.Deadline), fmt.Sprintf("cause=%v", c.Cause), fmt.Sprintf("stats=%v", c.Stats), fmt.Sprintf("reset_write_stalls=%v", c.ResetStallMs > 0),
-		fmt.Sprintf("bystanders=%d", c.Unary+c.Streams), "htmpl=" + c.HTmpl, fmt.Sprintf("close=%v", c.Close), fmt.Sprintf("park_send=%v", c.ParkSend)}
+		fmt.Sprintf("bystanders=%d", c.Unary+c.Streams), "htmpl=" + c.HTmpl, fmt.Sprintf("close=%v", c.Close), fmt.Sprintf("park_send=%v", c.ParkSend), fmt.Sprintf("slow_unary=%v", c.SlowUnary > 0)}
 	if unread >= 3 {
 		labels = append(labels, "unread>=3")
 	}
